@@ -222,6 +222,10 @@ def run(tier, seed, workers):
                 if ms:
                     opts["min_step"] = ms
                 cfgs.append({"N": N, "opts": opts, "sampler": "smc", "menu": ["flat", "mild", "peaked"], "bound": 2})
+    # an explicit floor together with a step cap: the floor stays the one the user gave
+    for ms, cap in ((0.2, 8), (0.3, 3), (0.1, 20)):
+        cfgs.append({"N": 4, "opts": {"adaptive": True, "target_efficiency": 0.9, "min_step": ms, "max_n_steps": cap}, "sampler": "smc",
+                     "menu": ["flat", "mild", "peaked"], "bound": 2})
     cfgs.append({"N": 4, "opts": {"adaptive": True, "target_efficiency": (0.3, 0.8), "rate": 2.0}, "sampler": "smc",
                  "menu": ["flat", "mild", "peaked"], "bound": 2})
     cfgs.append({"N": 4, "opts": {"adaptive": True, "beta_tolerance": 1e-2, "target_efficiency": 0.9}, "sampler": "smc",
@@ -235,7 +239,8 @@ def run(tier, seed, workers):
     for sampler in ("smc", "emcee_smc"):
         for opts in ({"adaptive": True, "target_efficiency": 0.8}, {"adaptive": True, "target_efficiency": (0.3, 0.9)},
                      {"adaptive": True, "target_efficiency": (0.5, 0.9), "target_efficiency_rate": 2.0},
-                     {"adaptive": True, "target_efficiency": 0.9, "min_step": 0.15}):
+                     {"adaptive": True, "target_efficiency": 0.9, "min_step": 0.15},
+                     {"adaptive": True, "target_efficiency": 0.9, "min_step": 0.1, "max_n_steps": 30}):
             if sampler == "emcee_smc" and "min_step" in opts:
                 continue
             for sd in sorted({0, seed}):
